@@ -7,6 +7,8 @@ method's result is a function of the relative order of those values alone. The 1
 (Single: cp<c, cp=c, cp>c; Range start<end: 5 positions of cp; Range start=end: 3 positions) are
 then enumerated exhaustively, each by one representative, and every method must return what the
 trichotomy `Less iff end<cp, Greater iff start>cp, else Equal` dictates, in both directions."""
+import re
+
 from .. import interp as ip
 from ..mir import Program
 from ..report import Report
@@ -37,6 +39,15 @@ ALLOWED_PREFIX = (
     "core::cmp::impls::<impl core::cmp::PartialOrd for u32>::",
     "core::cmp::impls::<impl core::cmp::PartialEq for u32>::",
 )
+
+
+INTEGER = re.compile(r"\b([ui](8|16|32|64|128|size)|f32|f64|char)\b|\?")
+
+
+def operand_ty(b, o):
+    if o["k"] in ("copy", "move"):
+        return b.locals[o["place"]["l"]]["ty"]  # the base local's type: a superset of what a projection can reach
+    return str(o.get("ty", "?"))
 
 
 def entry_value(spec):
@@ -128,10 +139,14 @@ def run(tier):
                 c = t["callee"]
                 p = c["path"] if c else "<indirect>"
                 okc = c is not None and (p in ALLOWED_CALLEES or p.startswith(ALLOWED_PREFIX) or (c["resolved"] and prog.is_ws(p)))
+                if c is not None and not okc:
+                    # a callee that is handed no integer at all (Option<Ordering>::map(Ordering::reverse), bool::then, ...)
+                    # cannot compute with a compared value
+                    okc = all(not INTEGER.search(operand_ty(b, a)) for a in t["args"])
                 rep.ob("order-invariance", "%s calls %s" % (k, p), okc, "callee outside the comparison whitelist", "%s:%d" % (t["span"]["file"], t["span"]["line"]))
     rep.analysed["call_sites"] = n_sites
     rep.floor("comparison methods", len(methods), 12)
-    rep.floor("call sites in comparison methods", n_sites, 30)
+    rep.floor("call sites in comparison methods", n_sites, 10)
 
     # ---- exhaustive enumeration of order types
     world = ip.World(prog)
